@@ -45,6 +45,50 @@ def _rel(q, a_root, b_root):
     return None if not facts else "/".join(sorted(facts))
 
 
+
+def matches_rule(F, rule, mfn):
+    """DIDUrlQuery::matches on its decision table: true exactly when (the query has no DID part or it equals the entry's DID, as whole
+    strings) and both fragments are present and equal."""
+    tab = SR.Table(F, mfn, opaque=r"DIDUrlQuery::(did_str|fragment)$|DIDUrl::(did|fragment)$|CoreDID::as_str$|DID::as_str$|::as_str$", rule=rule)
+    SELF_, URL_ = SR.SELF, SR.param("did_url")
+    rows = set()
+    for q in tab.paths:
+        ds = [e for e in q.calls(r"DIDUrlQuery::did_str$") if SR.pure(e.args[0], SELF_)]
+        fs = [e for e in q.calls(r"DIDUrlQuery::fragment$") if SR.pure(e.args[0], SELF_)]
+        fu = [e for e in q.calls(r"DIDUrl::fragment$") if SR.pure(e.args[0], URL_)]
+
+        def eq_of(x_t, y_pred):
+            for (a, c, _, _) in q.decisions:
+                if a[0] == "eq":
+                    for u, v in ((a[1], a[2]), (a[2], a[1])):
+                        if SR.pure(u, x_t) and y_pred(v):
+                            return c
+            return None
+        did_some = bool(ds) and q.variant.get(ds[0].result.t) == "Some"
+        did_none = bool(ds) and q.variant.get(ds[0].result.t) == "None"
+        did_eq = eq_of(("payload", ds[0].result.t, "Some", 0), lambda v: SR.derives(v, URL_) and "did" in sym.fmt(v) and "fragment" not in sym.fmt(v)) if did_some else None
+        both = bool(fs) and bool(fu) and q.variant.get(fs[0].result.t) == "Some" and q.variant.get(fu[0].result.t) == "Some"
+        frag_eq = eq_of(("payload", fs[0].result.t, "Some", 0), lambda v: SR.pure(v, ("payload", fu[0].result.t, "Some", 0))) if both else None
+        if q.ret is True:
+            ok = (did_none or did_eq is True) and both and frag_eq is True
+            rule.require(ok, (mfn, "did-eq" if not (did_none or did_eq is True) else "fragment-eq"),
+                         "DIDUrlQuery::matches returns true on a path that does not establish %s — path: %s" % (
+                             "that the query's DID (if any) equals the entry's DID" if not (did_none or did_eq is True) else "that both fragments are present and equal", q.describe()[:200]))
+            rows.add("match")
+        elif q.ret is False:
+            if did_eq is False:
+                rows.add("did-differs")
+            if both and frag_eq is False:
+                rows.add("fragment-differs")
+            if (fs and q.variant.get(fs[0].result.t) == "None") or (fu and q.variant.get(fu[0].result.t) == "None"):
+                rows.add("fragment-missing")
+        else:
+            rule.fail((mfn, "not-evaluable"), "DIDUrlQuery::matches returns %s, not a decided boolean" % (q.ret,))
+    rule.site("DIDUrlQuery::matches: rows %s" % sorted(rows))
+    if tab.paths:
+        rule.require("did-differs" in rows, (mfn, "did-eq"), "DIDUrlQuery::matches does not return false when the query's DID differs from the entry's DID")
+        rule.require({"match", "fragment-differs", "fragment-missing"} <= rows, (mfn, "fragment-eq"), "DIDUrlQuery::matches does not require both fragments to be present and equal (rows: %s)" % sorted(rows))
+
 def run(F, R, tier):
     R.undecided += ["truth of the conjunction on concrete tokens (implied together with C01, C10, C13)", "first-match semantics of resolve_method when two ids differ only in path/query"]
     fn = PV + "::validate"
@@ -199,34 +243,6 @@ def verify_jws_rules(F, r6):
         r6.require((n_cfg > 0 and n_kid > 0) or not tab.paths, (vfn, "query-table"), "the method query is not selected between options.method_id and the protected kid")
 
     mfn = Q + "::matches"
-    mh = F.hir(mfn)
-    if r6.anchor(mh, mfn):
-        env = H.Env(mh)
-        gs = []
-        for n in H.walk(H.root(mh)):
-            if n.get("k") == "if" and H.strip(n["cond"]).get("k") == "letexpr":
-                inner_g = L.block_guards(n["then"])
-                for cond, oc, node in inner_g:
-                    rel = H.relation(cond, env, lambda o: only(o, "param", "self", "did_str"), lambda o: only(o, "param", "did_url", "did"), accessors=ACC)
-                    lits = H.literals(node["then"])
-                    gs.append((rel, lits))
-                    r6.site("matches: did_str %s did_url.did() → return %s" % (rel, lits), node["sp"])
-        r6.require(("Ne", [False]) in gs, (mfn, "did-eq"), "DIDUrlQuery::matches does not return false when the query's DID differs from the entry's DID")
-        m = H.find_first(mh, lambda n: n.get("k") == "match" and n.get("src") == "normal")
-        okf = False
-        if m is not None:
-            so = H.origins(m["scrut"], env, accessors=ACC, extra=re.compile(r"Option::zip$"))
-            zipped = H.strip(m["scrut"])
-            both = zipped.get("k") == "mcall" and zipped["name"] == "zip"
-            t = {}
-            for arm in m["arms"]:
-                ps = H.pat_str(arm["pat"])
-                b = H.strip(arm["body"])
-                t[ps] = ("eq" if b.get("k") == "binary" and b.get("op") == "Eq" else str(H.literals(b)))
-            r6.site("matches: fragments %s" % t, m["sp"])
-            okf = both and t.get("Some((_, _))") == "eq" and t.get("None") == "[False]"
-            if both:
-                ro = H.origins(zipped["recv"], env, accessors=ACC) | H.origins(zipped["args"][0], env, accessors=ACC)
-                okf = okf and has(ro, "param", "self", "fragment") and has(ro, "param", "did_url", "fragment")
-        r6.require(okf, (mfn, "fragment-eq"), "DIDUrlQuery::matches does not require both fragments to be present and equal")
-    r6.floor(6)
+    if r6.anchor(F.hir(mfn), mfn):
+        matches_rule(F, r6, mfn)
+    r6.floor(5)
